@@ -145,7 +145,7 @@ def nanoemoji_font(rng, fmt, v0_expressible=False, bitmaps=False):
         vb = lambda r: (r.choice([0, -10]), r.choice([0, 7]), r.choice([100, 128, 150]), r.choice([100, 128]))
     over.pop("keep_glyph_names", None)
     over["keep_glyph_names"] = rng.random() < 0.4
-    over["output_file"] = "Font.ttf"
+    over["output_file"] = "Font.otf" if fmt.startswith("cff") else "Font.ttf"
     # a COLRv0 table can only repeat solid fills without group opacity (C03): with --colr_version 0 the
     # "same picture" claim is about such sources
     docs, srcs = e2e.gen_sources(rng, n=rng.randint(2, 5) if bitmaps else rng.randint(1, 4), var_opaque=fmt.endswith("_0") or v0_expressible, solid_only=v0_expressible, allow_groups=not v0_expressible, allow_special=not v0_expressible, viewbox=vb)
@@ -225,6 +225,11 @@ def compare_kept(inp, out, flags, eps_units):
     if "glyf" in a and a["glyf"] != restrict(b.get("glyf", ()), keep):
         d = [x[0] for x, y in zip(a["glyf"], restrict(b.get("glyf", ()), keep)) if x != y][:5]
         probs.append(f"outlines of existing glyphs changed: {d}")
+    for tag in ("CFF ", "CFF2"):
+        # charstring fonts (F19): what each existing name draws
+        if tag in a and a[tag] != restrict(b.get(tag, ()), keep):
+            d = [x[0] for x, y in zip(a[tag], restrict(b.get(tag, ()), keep)) if x != y][:5]
+            probs.append(f"{tag.strip()} outlines of existing glyphs changed: {d}")
     if otcanon.layout_canon(inp) != otcanon.layout_canon(out):
         probs.append("layout tables (GSUB/GPOS/GDEF) changed meaning")
     cov = otcanon.coverage_violations(out)
@@ -331,7 +336,7 @@ def compare_stripped(kept, stripped_data):
 
 
 def run_e2e(report, n, rng, jobs=6):
-    kinds = ["glyf_colr_1", "picosvg", "third1", "glyf_colr_0", "untouchedsvg", "third0", "third_svg", "third_nospace"]
+    kinds = ["glyf_colr_1", "picosvg", "third1", "glyf_colr_0", "untouchedsvg", "third0", "third_svg", "third_nospace", "cff_colr_1", "cff2_colr_1"]
     plans = []
     for i in range(n):
         kind = kinds[i % len(kinds)]
@@ -467,7 +472,7 @@ def main(argv):
     rng = random.Random(report.seed)
     run_order(report, 400 if tier == "quick" else 6000, rng)
     run_stems(report, 300 if tier == "quick" else 3000, rng)
-    run_e2e(report, 16 if tier == "quick" else 320, rng, jobs=8)
+    run_e2e(report, 20 if tier == "quick" else 320, rng, jobs=8)
     if not st["proof_ok"] and not report.violations:
         report.violation("proof", dict(kind="proof", theorem="Props/C12.v", detail=report.notes.get("proof_failure")), found_input=False)
     report.open_obligations = [
